@@ -195,6 +195,30 @@ example : (final (init 3 1) demo).red.pipes = [⟨1, .stderr, 3⟩] ∧
 -- `C17_no_spin`: its hypothesis is met by the last step of the run
 example : Out.eof .stdout 3 0 ∈ (step (final (init 3 1) (demo.dropLast)) (.ready 0)).2 := by decide
 
+/-- **one readiness event, one read that returns at once** (the redirector's share of "the daemon never blocks"): when the
+    handler is called for a pipe that has bytes queued, it delivers exactly the first `buffer` of them (one record), leaves the
+    rest queued for the next event and touches nothing else — in particular it does not read again, which on the blocking pipe of
+    a real worker would stall the loop once the queue is empty (the `read-would-block` clause of the C05 / C17 oracle watches the
+    implementation for exactly that). -/
+theorem C17_ready_is_one_read (s : State) (fd : Nat) (h : Entry) (p : Pipe)
+    (ha : s.red.active.get fd = some h) (hp : lookup s.fdt fd = some p) (hq : p.q ≠ []) (hb : s.red.buffer ≠ 0) :
+    step s (.ready fd) =
+      ({ s with fdt := s.fdt.set fd (some { p with q := p.q.drop s.red.buffer }) },
+       [.delivered h.name h.pid (p.q.take s.red.buffer)]) := by
+  have hlen : (p.q.take s.red.buffer).length ≠ 0 := by
+    cases hq' : p.q with
+    | nil => exact absurd hq' hq
+    | cons x xs =>
+      cases hb' : s.red.buffer with
+      | zero => exact absurd hb' hb
+      | succ n => simp
+  simp only [step, handlerCall, ha, hp]
+  rw [if_neg (by simp [hq]), if_neg hlen]
+
+-- five bytes queued, buffer 3: one event delivers three of them and leaves two queued
+example : (step (final (init 3 1) [.start, .spawn true true, .write 1 .stdout [1, 2, 3, 4, 5]]) (.ready 0)).2 =
+    [.delivered .stdout 1 [1, 2, 3]] := by decide
+
 /-- **a sibling's late clean-up leaves a successor alone** ("unaffected by sibling workers being restarted meanwhile"): when a
     `kill_process` wakes from its nap only after the periodic check has reaped its worker, its `remove_redirections` runs on a
     stopped `Process` whose pipes are closed file objects; it touches neither the registrations nor the handlers — in
